@@ -44,6 +44,60 @@ Definition sig_args (args : list string) (i : nat) : sigrr :=
   Build_sigrr (undec (arg args i)) (undec (arg args (i + 1))) (undec (arg args (i + 2)))
               (undec (arg args (i + 3))) (boolarg (arg args (i + 4))) (labels_of (unhex (arg args (i + 5)))).
 
+(* ---------- large messages (size boundaries): described by a recipe ----------
+   A 64 KiB literal is too much for the parser, so the harness run-length encodes
+   the octets: recipe = seg,seg,... with seg = hex (literal) or hex*count (the
+   chunk repeated count times); both sides expand it.  Long octet strings are
+   rendered as length.sum.sum-of-prefix-sums (Fletcher without modulus: below 2^41). *)
+Fixpoint split_rev (sep : ascii) (s : string) (cur : list ascii) (acc : list string) : list string :=
+  match s with
+  | EmptyString => rev (string_of_list_ascii (rev cur) :: acc)
+  | String c r =>
+    if Ascii.eqb c sep then split_rev sep r [] (string_of_list_ascii (rev cur) :: acc)
+    else split_rev sep r (c :: cur) acc
+  end.
+Definition split_lin (sep : ascii) (s : string) : list string :=
+  match s with EmptyString => [] | _ => split_rev sep s [] [] end.
+
+Fixpoint rep_bytes (n : nat) (c acc : bytes) : bytes :=
+  match n with O => acc | S k => rep_bytes k c (c ++ acc) end.
+Definition expand_seg (s : string) : bytes :=
+  match split_lin "*" s with
+  | [h; n] => rep_bytes (N.to_nat (undec n)) (unhex h) []
+  | [h] => unhex h
+  | _ => []
+  end.
+Definition expand (s : string) : bytes := concat (map expand_seg (split_lin "," s)).
+
+Fixpoint dig_go (b : bytes) (s1 s2 : N) : N * N :=
+  match b with
+  | [] => (s1, s2)
+  | x :: r => let s1 := s1 + x in dig_go r s1 (s2 + s1)
+  end.
+Definition digest (b : bytes) : string :=
+  let '(s1, s2) := dig_go b 0 0 in dec (lenN b) +++ "." +++ dec s1 +++ "." +++ dec s2.
+
+(* signing oracle for large inputs: digest:ok:sighex / digest:err:class *)
+Definition sign_inst_big (desc : string) (alg : N) (data : bytes) : res bytes :=
+  match split_lin ":" desc with
+  | [d; k; v] =>
+    if String.eqb d (digest data) then (if String.eqb k "ok" then Ok (unhex v) else Err v)
+    else Err "wrongdata"
+  | _ => Err "nosigner"
+  end.
+(* verification oracle for large inputs: digest:sighex:class:default *)
+Definition check_inst_big (desc : string) (alg : N) (data sg : bytes) : res unit :=
+  match split_lin ":" desc with
+  | [d; s; v; dflt] =>
+    if String.eqb d (digest data) && bytes_eqb (unhex s) sg && negb (String.eqb v "") then
+      (if String.eqb v "ok" then Ok tt else Err v)
+    else Err dflt
+  | _ => Err "sig"
+  end.
+(* a signed message: digest, the header, everything from the SIG record on *)
+Definition show_big (mlen : N) (out : bytes) : string :=
+  digest out +++ ":" +++ hex (takeN 12 out) +++ ":" +++ hex (dropN mlen out).
+
 Definition run (fn : string) (args : list string) : string :=
   if String.eqb fn "sign" then
     show_res hex (sig0_sign (sign_inst (arg args 8)) (undec (arg args 0))
@@ -51,5 +105,13 @@ Definition run (fn : string) (args : list string) : string :=
   else if String.eqb fn "verify" then
     show_res show_unit (sig0_verify (check_inst (arg args 9)) (sig_args args 0)
                                     (labels_of (unhex (arg args 6))) (unhex (arg args 7))
+                                    (undec (arg args 8)))
+  else if String.eqb fn "signbig" then
+    let mbuf := expand (arg args 1) in
+    show_res (show_big (lenN mbuf))
+             (sig0_sign (sign_inst_big (arg args 8)) (undec (arg args 0)) mbuf (sig_args args 2))
+  else if String.eqb fn "verifybig" then
+    show_res show_unit (sig0_verify (check_inst_big (arg args 9)) (sig_args args 0)
+                                    (labels_of (unhex (arg args 6))) (expand (arg args 7))
                                     (undec (arg args 8)))
   else "unknown-fn"%string.
